@@ -258,3 +258,56 @@ def strike_spelling(ctx: Ctx, which: str) -> None:
                               "(the number was rounded through the default dtype)", {"strike": K, "python_float": as_float.tolist(), "tensor": as_tensor.tolist()})
     finally:
         torch.set_default_dtype(saved)
+
+
+def batch_consistency(ctx: Ctx, grid: Grid, greeks=("price",)) -> None:
+    """The value at a point does not depend on what else is in the batch: the whole lattice in one call, one call per spot level
+    (every element of such a call has the same moneyness - all below the strike, or all above) and single points agree."""
+    for p in ("european", "european_binary", "american_binary", "lookback"):
+        for call in ([True, False] if p in ("european", "european_binary") else [True]):
+            for g in greeks:
+                full = grid.value(p, call, g)
+                for i in range(grid.shape[0]):
+                    sl = (slice(i, i + 1),)
+                    kw = {k: (x[sl] if isinstance(x, torch.Tensor) else x) for k, x in grid.kwargs().items()}
+                    try:
+                        with torch.enable_grad():
+                            part = call_sig(functional(p, g), call=call, **kw).detach().expand((1,) + grid.shape[1:])
+                    except Exception as e:
+                        ctx.violation(f"batch:{p}:{g}:raises", f"bs_{p}_{g} raised {type(e).__name__} on one spot level of the lattice", {"error": repr(e)[:200]})
+                        break
+                    ctx.count(n=1)
+                    want = full[sl]
+                    bad = ~(((part - want).abs() <= 1e-12 * (1 + want.abs())) | (part.isnan() & want.isnan()))
+                    if bool(bad.any()):
+                        j = tuple(int(x) for x in bad.nonzero()[0])
+                        idx = (i,) + j[1:]
+                        ctx.violation(f"batch:{p}:{g}", f"bs_{p}_{g}: the value at a point depends on the other points of the batch (one spot level alone vs the whole lattice)",
+                                      {"call": call, "at": grid.describe(idx), "alone": part[j].item(), "in_lattice": want[j].item()})
+                        break
+
+
+def inplace_between_calls(ctx: Ctx) -> None:
+    """A functional form called twice with the SAME tensor objects whose contents were changed in place in between answers for
+    the current contents (no result remembered by object identity)."""
+    import pfhedge.nn.functional as F
+    DT = torch.float64
+    for fname in sorted(POSITIONAL):
+        order = POSITIONAL[fname]
+        args = {"log_moneyness": torch.tensor([-0.25, 0.0, 0.125], dtype=DT), "max_log_moneyness": torch.tensor([-0.125, 0.25, 0.125], dtype=DT),
+                "time_to_maturity": torch.full((3,), 0.5, dtype=DT), "volatility": torch.full((3,), 0.25, dtype=DT), "call": True, "strike": 1.5}
+        args = {k: x for k, x in args.items() if k in order}
+        try:
+            with torch.enable_grad():
+                getattr(F, fname)(**args)
+                args["volatility"] += 0.125
+                args["log_moneyness"] -= 0.0625
+                again = getattr(F, fname)(**args).detach()
+                fresh = getattr(F, fname)(**{k: (x.clone() if isinstance(x, torch.Tensor) else x) for k, x in args.items()}).detach()
+        except Exception as e:
+            ctx.violation(f"inplace:{fname}:raises", f"{fname} raised {type(e).__name__} when called again after its argument tensors were updated in place", {"error": repr(e)[:200]})
+            continue
+        ctx.count(n=1)
+        if not bool((((again - fresh).abs() <= 1e-13 * (1 + fresh.abs())) | (again.isnan() & fresh.isnan())).all()):
+            ctx.violation(f"inplace:{fname}", f"{fname} called again with the same tensor objects after an in-place update returns the value of the OLD contents",
+                          {"again": again.tolist(), "fresh_tensors": fresh.tolist()})
